@@ -97,6 +97,8 @@ def universe(model_name, ids, quick=True):
     for v in ind:
         put_values[v] = _deltas_for(v, base[v], n_ind)
         put_indices[v] = [None]
+        # last entry: a scalar written at ONE coordinate (replacement or accumulation), as `put(indices=...)` allows
+        put_values[v].append(torch.tensor(0.7 if v != "tau" else 71.5, dtype=base[v].dtype))
     for v in pop:
         val = base[v]
         put_values[v] = [torch.tensor(d, dtype=val.dtype) for d in POP_DELTAS]
@@ -151,9 +153,16 @@ def explore_protocol(u, v, acc, *, follow_depth, quick, case_base):
         ops = []
         if phase == "warm":
             ops += [(["read", x], "warm", 0) for x in warm if st._values[x] is None]
-            for k in range(len(u.put_values[v])):
+            n_full = len(u.put_values[v]) - (1 if is_ind else 0)
+            for k in range(n_full):
                 for idx in u.put_indices[v]:
                     ops.append((["put", v, k, idx, True], "between", 0))
+            if is_ind:
+                coord = [0] * u.base[v].ndim
+                last = [u.n_ind - 1] + [0] * (u.base[v].ndim - 1)
+                for idx in (coord, last):
+                    ops.append((["put", v, n_full, idx, False], "between", 0))
+                ops.append((["put", v, n_full, coord, True], "between", 0))
         elif phase == "between":
             ops += [(["read", x], "between", 0) for x in between + between_agg if st._values[x] is None]
             ops.append((["accept"], "after", 0))
